@@ -29,14 +29,17 @@ def sig(rng, ids, i=None):
 
 def plan(histories, backend="pebble", ids=None):
     return {"backend": backend, "ids": ids or ["i1", "i2", "i3", "i4", "i5"], "topos": ["tA", "tB"],
-            "queries": sl.DEFAULT_QUERIES[:1], "ranges": sl.DEFAULT_RANGES[:1],
+            # same_name: successive versions of an ID differ in ONE field only (not even the name); scan
+            # alerts carry nothing but the name, so no scan queries here (content is C18's subject)
+            "queries": [], "ranges": sl.DEFAULT_RANGES[:1], "same_name": True,
             "theta": 750000000, "tol": sl.T050, "query_mode": "end", "histories": histories}
 
 
-def migrate_len(ctx, sigs):
+def migrate_len(ctx, sigs, pre=None, ver_base=0):
+    """Encoded length of the file a migrate step of the history [pre..., migrate(sigs)] reads."""
     p = os.path.join(ctx.scratch, "len.plan.json")
     with open(p, "w") as fh:
-        json.dump(plan([[{"op": {"op": "migrate", "sigs": sigs}}]]), fh)
+        json.dump(dict(plan([list(pre or []) + [{"op": {"op": "migrate", "sigs": sigs}}]]), ver_base=ver_base), fh)
     out = ctx.drv(["migrate-len", "-plan", p]).stdout.strip().splitlines()[-1]
     return json.loads(out)[0]
 
@@ -216,13 +219,16 @@ def check(ctx):
     ctx.notes["migrate_histories"] = len(hs)
     # (b) every truncation point of a small encoded file
     small = [sig(rng, ["i1", "i2"], i) for i in ("i1", "i2", "i1")]
-    ln = migrate_len(ctx, small)
+    pre = {"op": {"op": "add", "sig": sig(rng, ["i3"], "i3")}}
+    ln = migrate_len(ctx, small, [pre])
     cuts = list(range(0, ln)) if thorough else sorted(set(list(range(0, ln, 5)) + list(range(max(0, ln - 260), ln))
                                                           + list(range(0, 60))))
-    pre = {"op": {"op": "add", "sig": sig(rng, ["i3"], "i3")}}
     ths = [[pre, {"op": {"op": "migrate", "sigs": small, "cut": c}}] for c in cuts]
-    # the pre-existing add shifts payload versions by one: lengths are equal ("v0" vs "v1" digits)
-    trace_t, rep_t = sl.validate_histories(ctx, plan(ths, ids=["i1", "i2", "i3"]), "trunc", "C18")
+    # ver_base pins the payload cycle, so every history encodes the same file of ln bytes
+    trace_t, rep_t = sl.validate_histories(ctx, dict(plan(ths, ids=["i1", "i2", "i3"]), ver_base=0), "trunc", "C18")
+    lens = {e["bytes"] for e in vlib.read_ndjson(trace_t) if e.get("ev") == "migrate"}
+    if max(lens) > ln or (ln - 1) not in lens and ln not in lens:
+        raise vlib.Inconclusive("truncation family: the encoded file is not the %d bytes the cuts were computed for (%s)" % (ln, sorted(lens)[-3:]))
     ctx.notes["truncation_points"] = len(cuts)
     ctx.notes["truncation_file_bytes"] = ln
     # sampled truncation points of a big file
@@ -230,7 +236,7 @@ def check(ctx):
     lnb = migrate_len(ctx, bigl)
     bcuts = sorted(rng.sample(range(lnb), 120 if thorough else 14)) + [lnb - 1, lnb - 2, lnb - 30]
     bhs = [[{"op": {"op": "migrate", "sigs": bigl, "cut": c}}] for c in bcuts]
-    sl.validate_histories(ctx, plan(bhs, ids=["m00", "m39"]), "trunc_big", "C18")
+    sl.validate_histories(ctx, dict(plan(bhs, ids=["m00", "m39"]), ver_base=0), "trunc_big", "C18")
     ctx.notes["truncation_points_big"] = len(bcuts)
     # (c) add / addbatch / get on both back ends, save+load on the JSON store
     for be in ("pebble", "json"):
@@ -251,6 +257,24 @@ def check(ctx):
         pp = plan(hh, backend=be)
         pp["query_mode"] = "all"
         sl.validate_histories(ctx, pp, "addget_" + be, "C18:" + be)
+    # (c2) re-add chains: one ID rewritten 44 times in a row, one payload-cycle step at a time, so every
+    # field of a signature is at some point the ONLY difference between the stored and the new version
+    for be in ("pebble", "json"):
+        one = sig(rng, ["i1"], "i1")
+        chains = []
+        for kind in ("add", "addbatch", "mixed"):
+            h = []
+            for k in range(44):
+                if kind == "add" or (kind == "mixed" and k % 3):
+                    h.append({"op": {"op": "add", "sig": dict(one)}})
+                else:
+                    h.append({"op": {"op": "addbatch", "sigs": [dict(one)]}})
+                if kind == "mixed" and k % 7 == 6:
+                    h.append({"op": {"op": "saveload" if be == "json" else "reopen"}})
+            chains.append(h)
+        pp = dict(plan(chains, backend=be, ids=["i1"]), ver_base=0)
+        pp["query_mode"] = "all"
+        sl.validate_histories(ctx, pp, "readd_" + be, "C18:" + be)
     # (d) atomic save
     check_save(ctx)
     evs = vlib.read_ndjson(trace_t)
